@@ -482,3 +482,41 @@ class HugeB64:
                              "theorems": "encode_length, encode_window, encode_tail" if "enchuge" in o else "decode_rejects_foreign"},
                              summary=f"{what} on a text of {n} bytes (2^31*{n >> 31} + {n & 0x7fffffff}): {x[:70]}; required {m[:70]}")
             break
+
+
+M64_ = (1 << 64) - 1
+
+
+def murmur64a(data, seed=0):
+    """reference MurmurHash64A in Python: used only to CHOOSE inputs by where their hash falls; no verdict depends on it"""
+    m, r = 0xc6a4a7935bd1e995, 47
+    h = (seed ^ (len(data) * m)) & M64_
+    n8 = len(data) // 8
+    for i in range(n8):
+        k = int.from_bytes(data[8 * i:8 * i + 8], "little")
+        k = (k * m) & M64_
+        k ^= k >> r
+        k = (k * m) & M64_
+        h ^= k
+        h = (h * m) & M64_
+    tail = data[8 * n8:]
+    if tail:
+        h ^= int.from_bytes(tail, "little")
+        h = (h * m) & M64_
+    h ^= h >> r
+    h = (h * m) & M64_
+    h ^= h >> r
+    return h
+
+
+def low32_pair(seed, prefix=b"doc", limit=400000):
+    """two different short keys whose MurmurHash64A values (given seed) differ but agree in their low 32 bits (birthday search)"""
+    seen = {}
+    for i in range(limit):
+        k = prefix + b"%07d" % i
+        h = murmur64a(k, seed)
+        lo = h & 0xffffffff
+        if lo in seen and seen[lo][1] != h:
+            return seen[lo][0], k
+        seen[lo] = (k, h)
+    return None
